@@ -801,6 +801,13 @@ func runRoundTrip(t *testing.T, c *Case, cr *CaseResult) *CaseResult {
 				if out.doc != nil && dumpForest(fromDoc(out.doc), true) != want {
 					got = "a different document"
 				}
+				if p.ErrOnce && got == "the same document" {
+					// the reader recovered and every byte arrived: the complete
+					// document without an error is a fair answer (the optional
+					// byte order mark is peeked at with the error ignored)
+					cr.Probes["one_time_read_error_survived"]++
+					continue
+				}
 				cr.violate(prop+"/read-fault", "read error swallowed: "+got+" is returned",
 					fmt.Sprintf("the reader failed (once: %v) at offset %d of %d of the encoder's output and Decode returned a nil error", p.ErrOnce, k, len(text)))
 				break
@@ -1337,11 +1344,18 @@ func runStructure(t *testing.T, c *Case, cr *CaseResult) *CaseResult {
 				if o.panicVal != "" {
 					continue // C03
 				}
+				if p.ErrOnce {
+					cr.count("stream.read_error_once", 1)
+				}
+				if o.err == nil && p.ErrOnce && verdict(o) == baseVerdict {
+					// the reader recovered and the complete document came out
+					cr.Probes["one_time_read_error_survived"]++
+					continue
+				}
 				if o.err == nil {
 					once := ""
 					if p.ErrOnce {
 						once = " once"
-						cr.count("stream.read_error_once", 1)
 					}
 					cr.violate(prop+"/read-error", "read error swallowed: a document is returned",
 						fmt.Sprintf("the reader failed%s at offset %d of %d (with data in the same call: %v) and Decode returned a document and a nil error", once, k, len(data), withData))
@@ -1527,7 +1541,7 @@ func genTotalityCase(prop, tier string, r *rand.Rand) *Case {
 					n = 50000
 				}
 			}
-			b = append([]byte(head), bytes.Repeat([]byte(pick(r, []string{"\n", "\r\n", "\r", "1 NOTE x\n"})), n)...)
+			b = append([]byte(head), bytes.Repeat([]byte(pick(r, []string{"\n", "\r\n", "\r"})), n)...)
 			b = append(b, "0 TRLR\n"...)
 			// (with AllowMultiLine every blank line is appended to the value
 			// of the line before it, one string concatenation each: quadratic
@@ -1672,7 +1686,15 @@ func runTotality(t *testing.T, c *Case, cr *CaseResult) *CaseResult {
 			o := decodeWith(data, p, ml, ii, st)
 			judge(fmt.Sprintf("read error at %d of %d", k, len(data)), o, true)
 			if o.err == nil && o.panicVal == "" && o.doc != nil {
-				cr.violate(prop+"/totality", "read error swallowed: a document is returned", fmt.Sprintf("reader failed at offset %d of %d", k, len(data)))
+				if p.ErrOnce {
+					// the reader recovered: the complete document is a fair answer
+					whole := decodeWith(data, wholePlan(), ml, ii, st)
+					if whole.err == nil && whole.panicVal == "" && whole.doc != nil && whole.doc.String() == o.doc.String() {
+						cr.Probes["one_time_read_error_survived"]++
+						continue
+					}
+				}
+				cr.violate(prop+"/totality", "read error swallowed: a document is returned", fmt.Sprintf("reader failed at offset %d of %d (once: %v)", k, len(data), p.ErrOnce))
 			}
 		}
 	}
@@ -1720,7 +1742,9 @@ func runTotality(t *testing.T, c *Case, cr *CaseResult) *CaseResult {
 		// both streams end with a tag this process has not met before (what a
 		// decoder keeps about tags it has seen is process-wide state)
 		concurrentSeq++
-		uniq := fmt.Sprintf("%x%d", hashBytes(data)&0xffff, concurrentSeq)
+		// (fixed width: the length of the streams, which the schedule of
+		// this run is derived from, must not depend on the process history)
+		uniq := fmt.Sprintf("%04x%07d", hashBytes(data)&0xffff, concurrentSeq)
 		data := append(append([]byte(nil), data...), ("\n0 _A" + uniq + " x\n")...)
 		otherText += "0 _B" + uniq + " y\n"
 		var together, otherTogether decodeOutcome
